@@ -136,6 +136,23 @@ def run_adj(ctx, p):
             d = max(md(b.tr2jac(T1), want), md(sm.SE3(T1).jacob(), want),
                     md(b.tr2jac(T1, samebody=True), ref.adjoint(Ti)) / max(1.0, t1),
                     md(b.adjoint(T1) @ b.tr2jac(T1, samebody=True), np.eye(6)) / max(1.0, t1) ** 2)
+        elif which == 'jacobian_held':
+            # the way the results are used: several Jacobians / adjoints are obtained first and combined afterwards
+            R1, R2 = T1[:3, :3], T2[:3, :3]
+            Z = np.zeros((3, 3))
+            J1, J2 = b.tr2jac(T1), b.tr2jac(T2)
+            J1s, J2s = b.tr2jac(T1, samebody=True), b.tr2jac(T2, samebody=True)
+            A1, A2 = b.adjoint(T1), b.adjoint(T2)
+            Jc = sm.SE3([T1, T2]).jacob()
+            T12 = ref.f64(ref.mm(T1, T2))
+            J12, J12s = b.tr2jac(T12), b.tr2jac(T12, samebody=True)
+            inv = lambda T: ref.f64(ref.rt2tr(np.asarray(T[:3, :3].T, dtype=ref.LD), -ref.mm(T[:3, :3].T, T[:3, 3])))
+            sc = max(1.0, t1) * max(1.0, t2)
+            d = max(md(J1, np.block([[R1.T, Z], [Z, R1.T]])), md(J2, np.block([[R2.T, Z], [Z, R2.T]])),
+                    md(J1s, ref.adjoint(inv(T1))) / max(1.0, t1), md(J2s, ref.adjoint(inv(T2))) / max(1.0, t2),
+                    md(A1, ref.adjoint(T1)) / max(1.0, t1), md(A2, ref.adjoint(T2)) / max(1.0, t2),
+                    md(J12, J2 @ J1), md(J12s, J2s @ J1s) / sc,
+                    md(np.asarray(Jc[0]), J1) if len(Jc) == 2 else math.inf, md(np.asarray(Jc[1]), J2) if len(Jc) == 2 else math.inf)
         else:
             raise KeyError(which)
     except Exception as e:
@@ -286,7 +303,7 @@ def run(ctx):
         lo, hi = (1e-6, 1e6) if rng.random() < 0.6 else (1e-2, 1e2)
         drive(RUNNERS, ctx, 'maps', dict(which=which, v=gen.vec(rng, n, lo, hi), u=gen.vec(rng, n, lo, hi)))
     for _ in range(ctx.scale(5000, 120000)):
-        which = ['Ad_value', 'Ad_homomorphism', 'Ad_inverse', 'Ad_intertwine', 'exp_ad', 'jacobian'][rng.integers(6)]
+        which = ['Ad_value', 'Ad_homomorphism', 'Ad_inverse', 'Ad_intertwine', 'exp_ad', 'jacobian', 'jacobian_held'][rng.integers(7)]
         p = dict(which=which, T1=general_T(rng), T2=general_T(rng), S=twist(rng))
         drive(RUNNERS, ctx, 'adj', p)
         if ctx.ncases % 1999 == 1:
